@@ -108,7 +108,15 @@ func registerTimeNatives(in *Interp) {
 		if sec.IsConst() {
 			return in.timeVal(tb.Int(sec.SVal()*1000000000 + args[1].(*Term).SVal()))
 		}
-		return in.timeVal(tb.UF("unix_to_instant", BV(64), sec))
+		// an instant that is an (uninterpreted, injective-at-zero) function of the
+		// seconds; its Unix() is the seconds it was built from
+		t := tb.UF("unix_to_instant", BV(64), sec)
+		if in.unixOf == nil {
+			in.unixOf = map[*Term]*Term{}
+		}
+		in.unixOf[t] = sec
+		in.addConstraint(tb.Implies(tb.Ne(sec, tb.Int(0)), tb.Ne(t, tb.Int(0))))
+		return in.timeVal(t)
 	}
 	n["(time.Duration).String"] = func(in *Interp, fn *ssa.Function, args []Value) Value { return in.strConst("<duration>") }
 	n["(time.Duration).Seconds"] = func(in *Interp, fn *ssa.Function, args []Value) Value {
